@@ -41,6 +41,27 @@ func randomScript(r *rand.Rand, id int, big bool) *Script {
 		}
 		return sc
 	}
+	switch id % 16 {
+	case 7: // a pacer that takes its time to answer: the wait still counts from the moment it was returned
+		sc.PaceLatUs = []int{300, 5000, 60000}[id/16%3]
+		sc.Workers, sc.MaxWorkers = 1+r.Intn(3), []int{-1, 2, 4}[r.Intn(3)]
+		for i, n := 0, 2+r.Intn(5); i < n; i++ {
+			sc.Waits = append(sc.Waits, []int{1, 7, 40, 100}[r.Intn(4)])
+		}
+		sc.Lat, sc.Cons = []int{r.Intn(3)}, []int{0}
+		sc.StopCall = len(sc.Waits) + 1 + r.Intn(3)
+		return sc
+	case 15: // an empty initial pool, a small bound, and more than ten seconds of quiet between the hits: the attack goes on
+		m := 1 + id/16%2
+		sc.Workers, sc.MaxWorkers, sc.StepMs = 0, m, 500
+		sc.Waits = []int{0}
+		for i := 0; i < m+2; i++ {
+			sc.Waits = append(sc.Waits, 10500+r.Intn(4000))
+		}
+		sc.Lat, sc.Cons = []int{1 + r.Intn(3)}, []int{0}
+		sc.StopCall = len(sc.Waits) + 1
+		return sc
+	}
 	switch r.Intn(24) {
 	case 2, 3: // waits of tens of microseconds (below any timer resolution worth the name): still obeyed
 		sc.WaitUs = 10
